@@ -37,7 +37,7 @@ def plans(quick):
     ] + [
         dict(family=f,
              checks=[dict(steps=8, slots=2, force=False, fail=False, count=True), dict(steps=5, slots=2, count=True)],
-             gen=dict(steps=5, slots=1, force=False), walks=300, walk_len=16, sim=dict(num=2000, depth=18))
+             gen=dict(steps=(4 if f == 'chain' else 5), slots=1, force=False), walks=300, walk_len=16, sim=dict(num=2000, depth=18))
         for f in ('chain', 'mounts', 'diamond')
     ]
 
